@@ -1362,6 +1362,8 @@ class Ctx:
                 return (x.v / _frac(p)).denominator == 1
             return SB(z3.IsInt(x.v / _rv(_frac(p))))
         q = x / p
+        if q != q or q in (float("inf"), float("-inf")):
+            return False
         return abs(q - round(q)) < 1e-7
 
     # ------------------------------------------------------------------ transcendental models
